@@ -128,3 +128,31 @@ compact(struct win * w)
 	w->bufpos = 0;
 	return (have);
 }
+
+/* stores through pointers: different non-character types do not alias, equal types and character types may */
+size_t
+alias_types(size_t * a, int * b)
+{
+
+	*a = 5;
+	*b = 7;
+	return (*a);
+}
+
+size_t
+alias_same(size_t * a, size_t * b)
+{
+
+	*a = 5;
+	*b = 7;
+	return (*a);
+}
+
+size_t
+alias_char(size_t * a, unsigned char * b)
+{
+
+	*a = 5;
+	*b = 7;
+	return (*a);
+}
